@@ -37,7 +37,7 @@ pub fn sim_eq(a: u32, b: u32) -> bool {
     eq_answer(a, b)
 }
 
-pub trait KeyT: Hash + Eq + Clone + Send + Sync + 'static + for<'a> From<&'a <Self as KeyT>::View> {
+pub trait KeyT: Hash + Eq + Clone + Send + Sync + 'static + for<'a> From<&'a <Self as KeyT>::View> + serde::Serialize + serde::de::DeserializeOwned {
     const NAME: &'static str;
     const HAS_SERIAL: bool;
     const HAS_DROP: bool;
@@ -57,7 +57,7 @@ pub trait KeyT: Hash + Eq + Clone + Send + Sync + 'static + for<'a> From<&'a <Se
     fn intact(&self) -> bool;
 }
 
-pub trait ValT: Clone + PartialEq + Send + Sync + 'static {
+pub trait ValT: Clone + PartialEq + Send + Sync + 'static + serde::Serialize + serde::de::DeserializeOwned {
     const NAME: &'static str;
     const HAS_SERIAL: bool;
     fn make(v: u32) -> Self;
@@ -367,6 +367,30 @@ impl ValT for u32 {
         true
     }
 }
+/// 4-byte value with alignment 1: gives 5- and 6-byte pairs whose data part is not a multiple of the
+/// control alignment (padding between data and control bytes).
+#[derive(Clone, Copy, Debug, PartialEq)]
+#[repr(C, packed)]
+pub struct P4(pub u32);
+impl ValT for P4 {
+    const NAME: &'static str = "P4";
+    const HAS_SERIAL: bool = false;
+    fn make(v: u32) -> P4 {
+        P4(v)
+    }
+    fn val(&self) -> u32 {
+        self.0
+    }
+    fn set(&mut self, v: u32) {
+        self.0 = v;
+    }
+    fn serial(&self) -> u32 {
+        0
+    }
+    fn intact(&self) -> bool {
+        true
+    }
+}
 /// Unit value, for sets (`HashSet<T>` is `HashMap<T, ()>`).
 impl ValT for () {
     const NAME: &'static str = "unit";
@@ -658,6 +682,39 @@ impl Clone for ZstDrop {
     }
 }
 
+/// Zero-sized element with alignment 32: every reference handed out must still be 32-aligned.
+#[derive(Debug, Clone, Copy)]
+#[repr(align(32))]
+pub struct ZstAlign;
+impl ElemT for ZstAlign {
+    const NAME: &'static str = "ZstAlign";
+    const HAS_SERIAL: bool = false;
+    const HAS_DROP: bool = false;
+    const IS_ZST: bool = true;
+    fn make(_id: u32, _hash: u64) -> ZstAlign {
+        ZstAlign
+    }
+    fn dup(&self) -> ZstAlign {
+        ZstAlign
+    }
+    fn id(&self) -> u32 {
+        0
+    }
+    fn serial(&self) -> u32 {
+        0
+    }
+    fn hash(&self) -> u64 {
+        0
+    }
+    fn payload(&self) -> u32 {
+        0
+    }
+    fn set_payload(&mut self, _p: u32) {}
+    fn intact(&self) -> bool {
+        (self as *const ZstAlign as usize) % 32 == 0
+    }
+}
+
 /// Zero-sized element without drop glue.
 #[derive(Debug, Clone, Copy)]
 pub struct ZstPod;
@@ -689,3 +746,44 @@ impl ElemT for ZstPod {
         true
     }
 }
+
+// ------------------------------------------------------------------ serde (C20): elements travel as their u32 id / payload
+macro_rules! serde_key {
+    ($t:ty) => {
+        impl serde::Serialize for $t {
+            fn serialize<S: serde::Serializer>(&self, s: S) -> Result<S::Ok, S::Error> {
+                s.serialize_u32(KeyT::id(self))
+            }
+        }
+        impl<'de> serde::Deserialize<'de> for $t {
+            fn deserialize<D: serde::Deserializer<'de>>(d: D) -> Result<Self, D::Error> {
+                let id = <u32 as serde::Deserialize>::deserialize(d)?;
+                Ok(<$t as KeyT>::make(id % <$t as KeyT>::UNIVERSE))
+            }
+        }
+    };
+}
+macro_rules! serde_val {
+    ($t:ty) => {
+        impl serde::Serialize for $t {
+            fn serialize<S: serde::Serializer>(&self, s: S) -> Result<S::Ok, S::Error> {
+                s.serialize_u32(ValT::val(self))
+            }
+        }
+        impl<'de> serde::Deserialize<'de> for $t {
+            fn deserialize<D: serde::Deserializer<'de>>(d: D) -> Result<Self, D::Error> {
+                let v = <u32 as serde::Deserialize>::deserialize(d)?;
+                Ok(<$t as ValT>::make(v))
+            }
+        }
+    };
+}
+serde_key!(Key8);
+serde_key!(PodKey);
+serde_key!(KeyU8);
+serde_key!(KeyU16);
+serde_key!(Key24);
+serde_val!(Val8);
+serde_val!(P4);
+serde_val!(Big200);
+serde_val!(Align64);
